@@ -151,6 +151,65 @@ def assoc {α : Type} (l : List (String × α)) (dflt : α) (c : String) : α :=
 def winners (alpha : List (String × List Rat)) : String → Nat :=
   fun c => argmax (assoc alpha [] c)
 
+/-! ## histories: what `export()` may depend on
+
+Between construction and `export()` a combiner sees in-place writes of `alpha` (optimizer step,
+`load_state_dict`, assignment), option updates and forward passes.  A forward pass re-samples
+`theta_alpha` from the *current* `alpha`; nothing else touches `theta_alpha`.  `export()` must read
+`alpha` (`best_layer_index` = arg-max alpha), never what the last forward pass left in `theta_alpha`. -/
+
+/-- the part of a `SuperNetCombiner`'s state that a selection rule could read -/
+structure CombSt where
+  alpha : List Rat
+  /-- position of the largest entry of `theta_alpha` (left by the last forward pass), if determined -/
+  sampled : Option Nat
+  hard : Bool
+  gumbel : Bool
+deriving Repr
+
+inductive HistOp where
+  /-- `alpha` of combiner `c` overwritten (in place, `.data =`, `load_state_dict`, optimizer step) -/
+  | setAlpha (c : String) (a : List Rat)
+  /-- `update_softmax_options(hard=h)` -/
+  | setHard (h : Bool)
+  /-- `update_softmax_options(temperature=…)` -/
+  | setTemp
+  /-- a forward pass of the SuperNet: softmax / hard softmax keep the arg-max of `alpha`; Gumbel
+  noise (training mode) leaves an undetermined sample -/
+  | forward (train : Bool)
+deriving Repr
+
+/-- the op overwrites an `alpha` -/
+def HistOp.isWrite : HistOp → Bool
+  | .setAlpha _ _ => true
+  | _ => false
+
+abbrev HistSt := List (String × CombSt)
+
+def stepComb (op : HistOp) (c : String) (s : CombSt) : CombSt :=
+  match op with
+  | .setAlpha c' a => if c' = c then { s with alpha := a } else s
+  | .setHard h => { s with hard := h }
+  | .setTemp => s
+  | .forward train => { s with sampled := if train && s.gumbel then none else some (argmax s.alpha) }
+
+def histStep (st : HistSt) (op : HistOp) : HistSt := st.map fun p => (p.1, stepComb op p.1 p.2)
+
+def runHist (st : HistSt) (ops : List HistOp) : HistSt := ops.foldl histStep st
+
+/-- current `alpha` of every combiner -/
+def alphaOf (st : HistSt) : List (String × List Rat) := st.map fun p => (p.1, p.2.alpha)
+
+/-- `best_layer_index` of every combiner as `export_graph` calls it: arg-max of the current alpha -/
+def exportWinners (st : HistSt) : String → Nat := winners (alphaOf st)
+
+/-- the rule "with hard selection, take the one-hot `theta_alpha` already holds" (seeded change
+c03_2): the selection of the *last forward pass*, stale when alpha has changed since -/
+def exportWinnersStale (st : HistSt) : String → Nat := fun c =>
+  match st.find? (·.1 == c) with
+  | some p => if p.2.hard then p.2.sampled.getD (argmax p.2.alpha) else argmax p.2.alpha
+  | none => 0
+
 /-! ## export: `export_graph` -/
 
 def substId (n b a : Nat) : Nat := if a = n then b else a
